@@ -58,6 +58,8 @@ for _p in ("C05", "C06", "C07", "C08", "C09", "C13", "C15", "C16"):
     CLAIMED[_p]["text"] += " G12: a required test that rejects by a branch must keep an outcome from which no success value is reachable."
 CLAIMED["C05"]["text"] += " G8/K5d: on failure every leaf of the decoded value depends on the status; every backend decoder overwrites its whole receiver on every path."
 CLAIMED["C19"]["text"] += " R19c: every loop is iterator-bounded, a counter loop stepping to its bound, or a reviewed (numeric / probabilistic, undecided) loop."
+for _p in ("C08", "C13"):
+    CLAIMED[_p]["text"] += " G15: sign_hash, verify_hash and verify_trunc_hash of one curve place the bytes of the hash argument into the scalar buffer identically (agreement of siblings; bits2int itself is not decided)."
 for _p in ("C15", "C19"):
     CLAIMED[_p]["text"] += " G14: every test on the result of the FROST identifier comparator treats the outcome Equal on its own or rejects it (lists strictly increasing; the predicate establishing the interpolation assert's precondition is strict)."
 CLAIMED["C10"]["text"] += " R10z: in the ten vartime combination routines the result is assigned as a whole on every path, for every value of the routine's flags."
@@ -104,7 +106,7 @@ def main():
             dict(name="hashreset", path="crrlverif/hashreset.py", serves_properties=["C17"], kind_free_text="reset/new coverage, reset on finalise"),
             dict(name="totality", path="crrlverif/totality.py", serves_properties=["C10", "C11", "C15", "C19"], kind_free_text="panic edges, length/index obligations"),
             dict(name="limbcov", path="crrlverif/limbcov.py", serves_properties=["C04", "C05", "C06", "C07", "C08", "C09", "C10", "C11", "C13", "C15", "C17", "C18", "C20"], kind_free_text="limb / element coverage of whole-value operations (K5 family, K6)"),
-            dict(name="loopprog/flaginit/ordering/lmsstate", path="crrlverif/loopprog.py", serves_properties=["C19", "C10", "C15", "C16"], kind_free_text="loop classification (R19c), flag-guarded whole assignment (R10z), three-way comparator outcomes (G14), LMS one-time index state machine"),
+            dict(name="loopprog/flaginit/ordering/hashconv/lmsstate", path="crrlverif/loopprog.py", serves_properties=["C19", "C10", "C15", "C16", "C08", "C13"], kind_free_text="loop classification (R19c), flag-guarded whole assignment (R10z), three-way comparator outcomes (G14), ECDSA hash-conversion agreement (G15), LMS one-time index state machine"),
         ],
         checks=checks,
         not_applicable=na,
